@@ -62,7 +62,7 @@ def extract(iname, dt=1.0, t0=0.0):
 
 
 def setup(ctx):
-    ctx.require(*["tableau:" + n for n in gen.EXPLICIT], *["rkness:" + n for n in gen.EXPLICIT], *["order:" + n for n in gen.EXPLICIT])
+    ctx.require(*["tableau:" + n for n in gen.EXPLICIT], *["rkness:" + n for n in gen.EXPLICIT], *["order:" + n for n in gen.EXPLICIT], "rkness-zero-first-stage")
 
 
 def _order_conditions(A, b, p):
@@ -122,9 +122,16 @@ def tableau(ctx, rng, idx):
 def _nonlinear_rhs(rng, n):
     """random smooth nonlinear, state- and time-dependent right-hand side on R^n"""
     W = rng.uniform(-1, 1, (n, n)); w2 = rng.uniform(-1, 1, n); om = rng.uniform(0.5, 3, n); ph = rng.uniform(0, 6, n)
+    tz = None
     def fun(k, t, d):
         y = d[0]
-        return [np.tanh(W @ y) + w2 * y * y * 0.3 + np.sin(om * t + ph) * (1 + 0.5 * y)]
+        r = np.tanh(W @ y) + w2 * y * y * 0.3 + np.sin(om * t + ph) * (1 + 0.5 * y)
+        return [r if tz is None else (t - tz) * r]
+    def vanish_at(t0):
+        # forcing switched on at the start of the step: the right-hand side is exactly zero at (t0, y0) and nowhere else
+        nonlocal tz
+        tz = t0
+    fun.vanish_at = vanish_at
     return fun, {"W": W, "w2": w2, "omega": om, "phase": ph}
 
 
@@ -153,6 +160,9 @@ def rkness(ctx, rng, idx):
         disc = RecDisc(fun)
         mesh = _Mesh(n)
         f0 = ffield.fdata(_Model(), mesh, [rng.uniform(-1, 1, n)], t=float(rng.uniform(-2, 2)))
+        if rng.random() < 0.25:
+            fun.vanish_at(f0.time)
+            fdesc["rhs_vanishes_at_step_start"] = True
         localdt = bool(rng.random() < 0.3)
         dt = 10 ** rng.uniform(-3, 0, n) if localdt else float(10 ** rng.uniform(-4, 0))
         ctx.describe(integrator=iname, rhs="random nonlinear", localdt=localdt, dt=dt, y0=f0.data[0], t0=f0.time, **fdesc)
@@ -163,6 +173,8 @@ def rkness(ctx, rng, idx):
     ctx.true("ncalls", len(calls) == s, "rkness/%s/stage-count" % iname, {"calls": len(calls)}, cls=cls)
     if len(calls) != s or not all(np.all(np.isfinite(x)) for cl in calls for x in cl[2]):
         return
+    if not real and fdesc.get("rhs_vanishes_at_step_start"):
+        ctx.ev("rkness-zero-first-stage")
     dtmin = float(np.min(dt))
     neq = len(f0.data)
     for q in range(neq):
@@ -180,15 +192,19 @@ def rkness(ctx, rng, idx):
     ctx.nontrivial("rkness", iname, real, localdt, f0.data[0][:3], np.ravel(dt)[:2])
 
 
-def _solve_ode(iname, fun, y0, t0, T, nstep):
+def _solve_ode(iname, fun, y0, t0, T, nstep, ncheck=8):
+    """returns the solution at ncheck equally spaced checkpoints (nstep must be a multiple of ncheck)"""
     n = len(y0)
     disc = RecDisc(fun)
     solver = gen.integ(iname)(_Mesh(n), disc)
     f = ffield.fdata(_Model(), _Mesh(n), [np.array(y0, float)], t=t0)
     dt = (T - t0) / nstep
-    for _ in range(nstep):
+    out = []
+    for k in range(nstep):
         solver.step(f, dt)
-    return f.data[0]
+        if (k + 1) % (nstep // ncheck) == 0:
+            out.append(f.data[0].copy())
+    return np.array(out)
 
 
 @group(quick=len(gen.EXPLICIT) * 4, thorough=len(gen.EXPLICIT) * 100)
@@ -201,16 +217,19 @@ def order(ctx, rng, idx):
     fun = lambda k, t, d: [-a * d[0] ** 3 * 0.3 + np.sin(om * t + ph) * d[0] + np.cos(2 * om * t) * 2.0]
     y0 = rng.uniform(0.5, 1.5, n); t0 = float(rng.uniform(-1, 1)); T = t0 + 1.0
     from scipy.integrate import solve_ivp      # independent reference (not a flowdyn integrator)
-    sol = solve_ivp(lambda t, y: fun(0, t, [y])[0], (t0, T), y0, method="DOP853", rtol=1e-13, atol=1e-14)
-    ref = sol.y[:, -1]
+    tchk = t0 + (T - t0) * (np.arange(8) + 1) / 8.0
+    sol = solve_ivp(lambda t, y: fun(0, t, [y])[0], (t0, T), y0, method="DOP853", rtol=1e-13, atol=1e-14, t_eval=tchk)
+    ref = sol.y.T
     errs = []
-    levels = [16, 32, 64, 128] if ORDER[iname] <= 2 else [8, 16, 32, 64]
+    levels = [32, 64, 128, 256] if ORDER[iname] <= 2 else [16, 32, 64, 128]
     for ns in levels:
+        # error = max over 8 checkpoints and all components: the error at one single time can pass through zero as dt varies
         errs.append(np.max(np.abs(_solve_ode(iname, fun, y0, t0, T, ns) - ref)))
     errs = np.array(errs)
     p = np.log2(errs[:-1] / errs[1:])
     ctx.describe(integrator=iname, ode="y'=-0.3 a y^3+sin(w t+phi) y+2cos(2 w t)", a=a, omega=om, phase=ph, y0=y0, t0=t0, errors=errs, observed_orders=p)
     floor = errs[-1] < 1e-11
-    ctx.true("order", floor or np.min(p[-2:]) >= ORDER[iname] - 0.3, "order/%s/below-nominal" % iname,
-             {"orders": p, "errors": errs, "nominal": ORDER[iname]}, cls="order:" + iname)
+    slope = float(np.polyfit(np.log(1.0 / np.array(levels[1:], float)), np.log(errs[1:]), 1)[0]) if np.all(errs > 0) else 99.0
+    ctx.true("order", floor or slope >= ORDER[iname] - 0.35, "order/%s/below-nominal" % iname,
+             {"orders": p, "slope (3 finest levels)": slope, "errors": errs, "nominal": ORDER[iname]}, cls="order:" + iname)
     ctx.nontrivial("order", iname, a, om)
